@@ -4,6 +4,7 @@ import (
 	"bytes"
 	"fmt"
 	"os"
+	"sort"
 	"time"
 
 	"github.com/KevoDB/kevo/pkg/common/iterator"
@@ -39,9 +40,21 @@ func (e *DefaultCompactionExecutor) CompactFiles(task *CompactionTask) ([]string
 	// Create a merged iterator over all input files
 	var iterators []iterator.Iterator
 
-	// Add iterators from both levels
+	// Add iterators from all input levels, newest source first: the merged
+	// iterator lets earlier sources win on equal keys. Lower levels are newer
+	// than higher ones; within a level a higher sequence number (then a
+	// later timestamp) means a more recent file, which matters for the
+	// overlapping files of level 0.
 	for level := 0; level <= task.TargetLevel; level++ {
-		for _, file := range task.InputFiles[level] {
+		files := make([]*SSTableInfo, len(task.InputFiles[level]))
+		copy(files, task.InputFiles[level])
+		sort.SliceStable(files, func(i, j int) bool {
+			if files[i].Sequence != files[j].Sequence {
+				return files[i].Sequence > files[j].Sequence
+			}
+			return files[i].Timestamp > files[j].Timestamp
+		})
+		for _, file := range files {
 			// We need an iterator that preserves delete markers
 			if file.Reader != nil {
 				iterators = append(iterators, file.Reader.NewIterator())
